@@ -99,10 +99,19 @@ func numOf(o Obj) (float64, bool) {
 // ReadType1 reads a font program (PFA, binary eexec or unencrypted; PFB
 // payloads must be de-framed first).
 func ReadType1(data []byte, stdEnc []string) (*MFont, error) {
+	return ReadType1Sized(data, stdEnc, 65535)
+}
+
+// ReadType1Sized is ReadType1 with a caller-chosen limit for string, array
+// and dictionary sizes (the PLRM's 65535 is what a conforming file may rely
+// on; C20 follows paths of up to 10,000 segments, whose charstrings are
+// longer, and is only concerned with the numbers in them).
+func ReadType1Sized(data []byte, stdEnc []string, maxSize int) (*MFont, error) {
 	if len(data) < 2 || data[0] != '%' || data[1] != '!' {
 		return nil, fmt.Errorf("font program does not start with %%!")
 	}
 	in := NewInterp(stdEnc)
+	in.MaxSize = maxSize
 	in.MaxSteps = 50_000_000
 	in.MaxStack = 100000
 	in.MaxDepth = 200
